@@ -76,14 +76,24 @@ func (gi *gitlabImporter) ImportAll(ctx context.Context, repo *cache.RepoCache, 
 				StateEvents(ctx, gi.client, issue),
 			)
 
+			// The events of an issue are imported in the order they happened. When one of them can't be imported
+			// (its author can't be fetched ...), importing the following ones anyway would record them before it
+			// once a later run succeeds (an older title change applied after a newer one): stop there, the issue
+			// is listed again by the next run as the cursor doesn't move after an error.
+			failed := false
 			for e := range issueEvents {
 				if e, ok := e.(ErrorEvent); ok {
 					out <- core.NewImportError(e.Err, "")
 					continue
 				}
+				if failed {
+					// drain the channel
+					continue
+				}
 				if err := gi.ensureIssueEvent(repo, b, issue, e); err != nil {
 					err := fmt.Errorf("issue event creation: %v", err)
 					out <- core.NewImportError(err, entity.Id(e.ID()))
+					failed = true
 				}
 			}
 
